@@ -686,7 +686,8 @@ pub fn format_number(value_original: f64, format: &str, locale: &Locale) -> Form
 fn parse_day(day_str: &str) -> Result<(u32, String), String> {
     let bytes = day_str.bytes();
     let bytes_len = bytes.len();
-    if bytes_len <= 2 {
+    // `str::parse` accepts a leading sign ("+1")
+    if bytes_len <= 2 && day_str.bytes().all(|b| b.is_ascii_digit()) {
         match day_str.parse::<u32>() {
             Ok(y) => {
                 if bytes_len == 2 {
@@ -704,7 +705,7 @@ fn parse_day(day_str: &str) -> Result<(u32, String), String> {
 fn parse_month(month_str: &str, locale: &Locale) -> Result<(u32, String), String> {
     let bytes = month_str.bytes();
     let bytes_len = bytes.len();
-    if bytes_len <= 2 {
+    if bytes_len <= 2 && month_str.bytes().all(|b| b.is_ascii_digit()) {
         match month_str.parse::<u32>() {
             Ok(y) => {
                 if bytes_len == 2 {
@@ -737,7 +738,7 @@ fn parse_year(year_str: &str) -> Result<(i32, String), String> {
     // 29 => 2029
     let bytes = year_str.bytes();
     let bytes_len = bytes.len();
-    if bytes_len != 2 && bytes_len != 4 {
+    if (bytes_len != 2 && bytes_len != 4) || !year_str.bytes().all(|b| b.is_ascii_digit()) {
         return Err("Not a valid year".to_string());
     }
     match year_str.parse::<i32>() {
